@@ -190,7 +190,7 @@ theorem sv_clearTransportF {w0 w : World} (f : Nat) (sid : Nat) (h : SameView w0
   | zero => simpa [clearTransportF] using h
   | succ f =>
     rw [clearTransportF]
-    apply sv_setSock _ _ _ ⟨rfl, rfl, rfl, rfl, rfl⟩
+    apply sv_setSock _ _ _ ⟨rfl, rfl, rfl, rfl, rfl, rfl, rfl, rfl, by first | exact id | (intro h; cases h)⟩
     apply sv_trCloseF_detached
     · sv_prim
     · refine tr_setTr_role_none _ _ _ ?_; intro _; rfl
@@ -200,7 +200,7 @@ theorem sv_candCleanup {w0 w : World} (sid : Nat) (h : SameView w0 w) : SameView
   split
   · exact h
   · apply sv_setTr
-    exact sv_setSock _ _ h ⟨rfl, rfl, rfl, rfl, rfl⟩
+    exact sv_setSock _ _ h ⟨rfl, rfl, rfl, rfl, rfl, rfl, rfl, rfl, by first | exact id | (intro h; cases h)⟩
 
 theorem sv_candFail {w0 w : World} (f : Nat) (sid : Nat) (h : SameView w0 w) : SameView w0 (candFail f w sid) := by
   cases f with
@@ -232,6 +232,7 @@ theorem close_core (w w' : World) (sid : Nat) (reason : String) (x : RS) (i : In
     (other : ∀ j, j ≠ sid → SockSame (w.sock j) (w'.sock j))
     (hrs : (w'.sock sid).rs = .closed) (hcb : (w'.sock sid).sentCb = [])
     (hann : (w'.sock sid).announced = (w.sock sid).announced) (hproto : (w'.sock sid).proto = (w.sock sid).proto)
+    (hupg : (w'.sock sid).upgraded = (w.sock sid).upgraded) (hcandm : (w'.sock sid).cand.isSome → (w.sock sid).cand.isSome)
     (hlog : w'.slog = w.slog ++ [(sid, .close reason x)])
     (hreg : w'.registry = w.registry.filter (· ≠ sid))
     (hreqs : ReqsExt w w') : Inv w' ∧ Ext w w' := by
@@ -239,7 +240,17 @@ theorem close_core (w w' : World) (sid : Nat) (reason : String) (x : RS) (i : In
     unfold closedW; rw [(other j hj).rs]
   have hci : ∀ j, closeIn j w'.slog ↔ closeIn j w.slog ∨ j = sid := fun j => by
     rw [hlog, closeIn_append, closeIn_single]; simp [SEv.isClose, eq_comm]
-  refine ⟨⟨?_, ?_, ?_, ?_, ?_, ?_, ?_⟩, ⟨?_, ⟨_, hlog⟩, hreqs, Nat.le_of_eq size.symm, ?_, ?_, ?_⟩⟩
+  have hacc' : AccInv w' := by
+    refine i.acc.snoc_neutral sid (.close reason x) rfl hlog (Nat.le_of_eq size.symm) (fun j h => ?_)
+    by_cases hj : j = sid
+    · subst hj
+      obtain ⟨r1, e1, _⟩ := h.pk
+      obtain ⟨r2, e2, _⟩ := h.cb
+      obtain ⟨r3, e3, _⟩ := h.run
+      exact ⟨⟨r1, e1, fun hn => absurd hrs hn⟩, ⟨r2, e2, fun hn => absurd hrs hn⟩, ⟨r3, e3, fun hn => absurd hrs hn⟩,
+             by rw [hupg]; exact h.up⟩
+    · exact h.same (other j hj)
+  refine ⟨⟨?_, ?_, ?_, ?_, ?_, ?_, ?_, hacc'⟩, ⟨?_, ⟨_, hlog⟩, hreqs, Nat.le_of_eq size.symm, ?_, ?_, ?_⟩⟩
   · rw [hlog]
     exact logOK_snoc _ _ i.logOK (fun _ hc => hnc (i.logClosed sid hc))
   · intro j hc
@@ -254,11 +265,12 @@ theorem close_core (w w' : World) (sid : Nat) (reason : String) (x : RS) (i : In
   · intro j
     by_cases hj : j = sid
     · subst hj
-      exact ⟨fun _ => hcb, fun _ => Or.inr hrs⟩
+      exact ⟨fun _ => hcb, fun _ => Or.inr hrs, fun hd => by rw [hupg]; exact (i.sockOK j).cu (hcandm hd)⟩
     · have s := other j hj
       have o := i.sockOK j
       exact ⟨fun hc => by rw [s.sentCb]; exact o.cb (by rw [← s.rs]; exact hc),
-             fun hd => by rw [s.rs]; exact o.dc (by rw [← s.drainClose]; exact hd)⟩
+             fun hd => by rw [s.rs]; exact o.dc (by rw [← s.drainClose]; exact hd),
+             fun hd => by rw [s.upgraded]; exact o.cu (s.candm hd)⟩
   · intro j hm
     rw [hreg] at hm
     have hm' := List.mem_filter.mp hm
@@ -311,33 +323,43 @@ theorem sockOnClose_pres (f : Nat) (w : World) (sid : Nat) (reason : String) :
       generalize hw4 : w3.sev sid (.close reason (w3.sock sid).rs) = w4
       have v45 := candFail_sameView f w4 sid
       generalize hw5 : candFail f w4 sid = w5 at v45
-      have v56 := sameView_setSock w5 sid (fun s => { s with wbuf := [] }) ⟨rfl, rfl, rfl, rfl, rfl⟩
-      have v46 := v45.trans v56
-      generalize hw6 : (w5.setSock sid fun s => { s with wbuf := [] }) = w6 at v46
+      generalize hw6 : (w5.setSock sid fun s => { s with wbuf := [] }) = w6
       -- the sessions of w1
       have s1 : ∀ j, j ≠ sid → w1.sock j = w.sock j := fun j hj => by
         rw [← hw1, sock_setSock]; simp [Ne.symm hj]
       have s1s : w1.sock sid = { (w.sock sid) with rs := .closed, pingIntervalDue := none, pingTimeoutDue := none, packetsFn := [], sentCb := [] } := by
         rw [← hw1, sock_setSock]; simp [hsz]
       have s34 : ∀ j, w4.sock j = w2.sock j := fun j => by rw [← hw4, sock_sev, ← hw3]; rfl
-      have sock6 : ∀ j, SockSame (w1.sock j) (w6.sock j) := fun j => by
+      have sock5 : ∀ j, SockSame (w1.sock j) (w5.sock j) := fun j => by
         have a := v12.sock j
-        have b := v46.sock j
+        have b := v45.sock j
         rw [s34 j] at b
         exact a.trans b
-      apply close_core w w6 sid reason (w3.sock sid).rs i hnc hsz
-      · rw [v46.size, ← hw4, socks_sev, ← hw3]
+      have z5 : w5.socks.size = w.socks.size := by
+        rw [v45.size, ← hw4, socks_sev, ← hw3]
         show w2.socks.size = _
         rw [v12.size, ← hw1]; simp
-      · intro j hj; have := sock6 j; rw [s1 j hj] at this; exact this
-      · rw [(sock6 sid).rs, s1s]
-      · rw [(sock6 sid).sentCb, s1s]
-      · rw [(sock6 sid).announced, s1s]
-      · rw [(sock6 sid).proto, s1s]
-      · rw [v46.slog, ← hw4, slog_sev, ← hw3]
+      have s6 : ∀ j, j ≠ sid → w6.sock j = w5.sock j := fun j hj => by
+        rw [← hw6, sock_setSock]; simp [Ne.symm hj]
+      have s6s : w6.sock sid = { (w5.sock sid) with wbuf := [] } := by
+        rw [← hw6, sock_setSock]; simp [z5, hsz]
+      have v56 : SameView' w5 w6 := by
+        rw [← hw6]; exact ⟨by simp, rfl, rfl, ReqsExt.refl _⟩
+      apply close_core w w6 sid reason (w3.sock sid).rs i hnc hsz
+      · rw [v56.size, z5]
+      · intro j hj; have := sock5 j; rw [s1 j hj, ← s6 j hj] at this; exact this
+      · rw [s6s]; show (w5.sock sid).rs = _; rw [(sock5 sid).rs, s1s]
+      · rw [s6s]; show (w5.sock sid).sentCb = _; rw [(sock5 sid).sentCb, s1s]
+      · rw [s6s]; show (w5.sock sid).announced = _; rw [(sock5 sid).announced, s1s]
+      · rw [s6s]; show (w5.sock sid).proto = _; rw [(sock5 sid).proto, s1s]
+      · rw [s6s]; show (w5.sock sid).upgraded = _; rw [(sock5 sid).upgraded, s1s]
+      · rw [s6s]; intro hd
+        have := (sock5 sid).candm hd
+        rw [s1s] at this; exact this
+      · rw [v56.slog, v45.slog, ← hw4, slog_sev, ← hw3]
         show w2.slog ++ _ = _
         rw [v12.slog, ← hw1]; rfl
-      · rw [v46.registry, ← hw4, registry_sev, ← hw3]
+      · rw [v56.registry, v45.registry, ← hw4, registry_sev, ← hw3]
         show w2.registry.filter _ = _
         rw [v12.registry, ← hw1]; rfl
       · have r12 : ReqsExt w w2 := by
@@ -345,6 +367,6 @@ theorem sockOnClose_pres (f : Nat) (w : World) (sid : Nat) (reason : String) :
         have r24 : ReqsExt w2 w4 := by
           rw [← hw4, ← hw3]
           exact ⟨by simp, fun r x hx => by simpa using hx⟩
-        exact r12.trans (r24.trans v46.reqs)
+        exact r12.trans (r24.trans (v45.reqs.trans v56.reqs))
 
 end EIO.Ses
